@@ -10,12 +10,33 @@ LIST_MUT = {'append', 'extend', 'insert', 'remove', 'pop', 'clear', 'sort', 'rev
 ALL_MUT = DICT_MUT | SET_MUT | LIST_MUT
 
 
-def _field_of(e, fields):
-    """If expression e is ``<obj>.<field>`` with field in fields return
-    (obj_text, field)."""
+_ALIASES = [{}]
+
+
+def _field_of(e, fields, deref=False):
+    """If expression e is ``<obj>.<field>`` with field in fields return (obj_text, field).  With deref, a local that was
+    bound once to ``<obj>.<field>`` stands for the field's object (``v = self._variables; v.add(i)``)."""
     if isinstance(e, ast.Attribute) and e.attr in fields:
         return src(e.value), e.attr
+    if deref and isinstance(e, ast.Name) and e.id in _ALIASES[0]:
+        a = _ALIASES[0][e.id]
+        if a.attr in fields:
+            return src(a.value), a.attr
     return None
+
+
+def field_aliases(fnode):
+    """Locals assigned exactly once, from a plain attribute load ``X.f`` (aliases of the field's object)."""
+    count, val = {}, {}
+    for n in ast.walk(fnode):
+        if isinstance(n, ast.Name) and isinstance(n.ctx, (ast.Store, ast.Del)):
+            count[n.id] = count.get(n.id, 0) + 1
+        if isinstance(n, ast.Assign) and len(n.targets) == 1 and isinstance(n.targets[0], ast.Name) \
+                and isinstance(n.value, ast.Attribute) and isinstance(n.value.value, ast.Name):
+            val[n.targets[0].id] = n.value
+    a = fnode.args if hasattr(fnode, 'args') else None
+    params = {x.arg for x in (a.posonlyargs + a.args + a.kwonlyargs)} if a else set()
+    return {k: v for k, v in val.items() if count.get(k) == 1 and k not in params}
 
 
 def field_writes(fnode, fields):
@@ -30,6 +51,7 @@ def field_writes(fnode, fields):
                     one chained call such as X.f.setdefault(k, []).append(v))
     """
     out = []
+    _ALIASES[0] = field_aliases(fnode) if isinstance(fnode, (ast.FunctionDef, ast.Lambda)) else {}
     for n in ast.walk(fnode):
         if isinstance(n, ast.Assign):
             flat = []
@@ -45,7 +67,7 @@ def field_writes(fnode, fields):
                 if fo:
                     out.append((n, fo[0], fo[1], 'assign', v))
                 elif isinstance(t, ast.Subscript):
-                    fo = _field_of(t.value, fields)
+                    fo = _field_of(t.value, fields, True)
                     if fo:
                         out.append((n, fo[0], fo[1], 'item', (t.slice, v)))
         elif isinstance(n, ast.AugAssign):
@@ -53,19 +75,19 @@ def field_writes(fnode, fields):
             if fo:
                 out.append((n, fo[0], fo[1], 'aug', (n.op, n.value)))
             elif isinstance(n.target, ast.Subscript):
-                fo = _field_of(n.target.value, fields)
+                fo = _field_of(n.target.value, fields, True)
                 if fo:
                     out.append((n, fo[0], fo[1], 'itemaug', (n.target.slice, n.op, n.value)))
         elif isinstance(n, ast.Delete):
             for t in n.targets:
-                fo = _field_of(t, fields) or (isinstance(t, ast.Subscript) and _field_of(t.value, fields))
+                fo = _field_of(t, fields) or (isinstance(t, ast.Subscript) and _field_of(t.value, fields, True))
                 if fo:
                     out.append((n, fo[0], fo[1], 'del', None))
         elif isinstance(n, ast.Call) and isinstance(n.func, ast.Attribute) and n.func.attr in ALL_MUT:
             base = n.func.value
-            fo = _field_of(base, fields)
+            fo = _field_of(base, fields, True)
             if not fo and isinstance(base, ast.Subscript):
-                fo = _field_of(base.value, fields)       # X.f[k].append(v)
+                fo = _field_of(base.value, fields, True)       # X.f[k].append(v)
             if not fo and isinstance(base, ast.Call) and isinstance(base.func, ast.Attribute):
                 fo = _field_of(base.func.value, fields)  # X.f.setdefault(k, []).append(v)
             if fo:
